@@ -652,3 +652,58 @@ Proof.
   destruct (serve_all cfg r) as [cfg2 os] eqn:E. specialize (IH cfg). rewrite E in IH. simpl in *.
   destruct IH as [-> ->]. auto.
 Qed.
+
+(* ---------------- the configuration as written (fifth round) ---------------- *)
+Lemma sub_of_text_wf : forall written ones w port,
+  ones <= 32 -> written < two32 -> port < 65536 -> wf_subnet (sub_of_text written ones w port) = true.
+Proof.
+  intros written ones w port Ho Hw Hp. unfold wf_subnet, sub_of_text, sub_of_cidr, cidr_of_text, mask_base. simpl.
+  assert (2 ^ (32 - ones) <> 0) as NZ by (apply N.pow_nonzero; lia).
+  rewrite N.mod_mul by exact NZ.
+  pose proof (N.mul_div_le written (2 ^ (32 - ones)) NZ) as L. rewrite N.mul_comm in L.
+  rewrite !andb_true_iff. repeat split.
+  - apply N.leb_le; lia.
+  - apply N.ltb_lt; lia.
+  - apply N.ltb_lt; lia.
+Qed.
+
+Lemma rand_host_in_written_net : forall written ones w port chunks ip,
+  ones <= 32 -> written < two32 -> port < 65536 ->
+  rand_host (sub_of_text written ones w port) chunks = DOk ip -> in_written_net written ones ip.
+Proof.
+  intros written ones w port chunks ip Ho Hw Hp H.
+  pose proof (rand_host_in_subnet _ _ _ (sub_of_text_wf written ones w port Ho Hw Hp) H) as [L U].
+  unfold in_subnet, sub_of_text, sub_of_cidr, cidr_of_text, mask_base in L, U. cbn [fst snd s_base s_ones] in L, U.
+  unfold in_written_net.
+  assert (2 ^ (32 - ones) <> 0) as NZ by (apply N.pow_nonzero; lia).
+  remember (2 ^ (32 - ones)) as X. remember (written / X) as q.
+  symmetry. apply N.div_unique with (r := ip - q * X); lia.
+Qed.
+
+Lemma contains_of_text : forall written ones w port a,
+  contains (sub_of_text written ones w port) a = (a / 2 ^ (32 - ones) =? written / 2 ^ (32 - ones)).
+Proof.
+  intros. unfold contains, sub_of_text, sub_of_cidr, cidr_of_text, mask_base. simpl.
+  rewrite N.div_mul by (apply N.pow_nonzero; lia). reflexivity.
+Qed.
+
+(* every configuration decoded from text is well-formed, so the override theorem applies to it *)
+Lemma wf_cfg_of_text : forall cfg,
+  (forall s, In s (c_min_subnets cfg ++ c_prefix_subnets cfg) ->
+     exists written ones w port, ones <= 32 /\ written < two32 /\ port < 65536 /\ s = sub_of_text written ones w port) ->
+  wf_cfg cfg = true.
+Proof.
+  intros cfg H. unfold wf_cfg. rewrite andb_true_iff, !forallb_forall. split; intros s I;
+  (destruct (H s) as [wr [o [w [p [A [B [C ->]]]]]]]; [apply in_or_app; auto|apply sub_of_text_wf; auto]).
+Qed.
+
+(* refuted variant "keep the host bits": 192.0.2.200/24, offset 100 (< 256) gives 192.0.3.44 *)
+Lemma keep_hostbits_refuted :
+  exists written ones w port chunks ip,
+    ones <= 32 /\ written < two32 /\ port < 65536 /\
+    rand_host (sub_of_cidr (cidr_keep_hostbits written ones) w port) chunks = DOk ip /\
+    ~ in_written_net written ones ip /\
+    contains (sub_of_cidr (cidr_keep_hostbits written ones) w port) ip = false.
+Proof.
+  exists 3221226184, 24, 1, 443, [[100]], 3221226284. repeat split; vm_compute; congruence.
+Qed.
